@@ -120,7 +120,9 @@ def concretize_time(tc, probe=False):
             pos += k
         else:
             steps.append(st)
-    case["steps"] = steps
+    # two more seconds before the epilogue makes everything easy: a connection that the model says has ended by now must not
+    # merely end because the epilogue unblocks the socket
+    case["steps"] = steps + [{"tick": 1000}, {"tick": 1000}]
     h1gen.add_epilogue(case)
     case["origin"] = "H1Time"
     case["pred"] = tc.get("pred", [])
@@ -133,6 +135,7 @@ def time_fidelity(rep, tpath, all_cases):
     of the script (response heads, how the task ended) against what the real dispatcher did. Disagreements are listed in the evidence."""
     want = {n + 1: c["pred"] for n, c in enumerate(all_cases) if "pred" in c}
     nsteps = {n + 1: len(c["model_script"]["steps"]) for n, c in enumerate(all_cases) if "pred" in c}
+    horizon = {n + 1: sum(st.get("tick", 0) for st in c["model_script"]["steps"]) for n, c in enumerate(all_cases) if "pred" in c}
     if not want:
         return
     got, run, live, envs = {}, 0, False, 0
@@ -149,6 +152,8 @@ def time_fidelity(rep, tpath, all_cases):
                     envs += 1
                     if envs > nsteps[run]:
                         live = False        # the first step of the epilogue
+                elif e.get("t", 0) > horizon[run]:
+                    pass                    # beyond the model's clock (the grace ticks appended to the script)
                 elif ev == "Resp" and not e.get("interim"):
                     got[run].append({"s": e["status"], "c": "close" if e.get("conn") == "close" else "-"})
                 elif ev == "Done":
